@@ -75,7 +75,7 @@ BAD = lambda n: [-1, -2, n, n + 1, 1 << 31, -(1 << 63)]  # noqa
 
 
 def units(tier):
-    return ["huge"] + list(range(len(family.schemas(tier))))
+    return ["huge", "many-blocks"] + list(range(len(family.schemas(tier))))
 
 
 def _small(d, lim):
@@ -280,12 +280,53 @@ def run_huge(fa, res):
     return res
 
 
+def run_many_blocks(fa, res):
+    """Arrays and maps split into very many blocks (one item per block, positive and sized form, and mixed)."""
+    n_cases = 0
+    for nblocks in (100, 1000, 3000, 20000):
+        for kind in ("array", "map"):
+            for form in ("positive", "sized", "alternating"):
+                body = bytearray()
+                expect_a, expect_m = [], {}
+                for i in range(nblocks):
+                    item = binary.zigzag(i) if kind == "array" else (binary.zigzag(len(b"k%d" % i)) + b"k%d" % i + binary.zigzag(i))
+                    neg = form == "sized" or (form == "alternating" and i % 2)
+                    body += (binary.zigzag(-1) + binary.zigzag(len(item)) if neg else binary.zigzag(1)) + item
+                    expect_a.append(i)
+                    expect_m["k%d" % i] = i
+                body += b"\x00"
+                raw = {"type": "array", "items": "int"} if kind == "array" else {"type": "map", "values": "int"}
+                expect = expect_a if kind == "array" else expect_m
+                W = {"type": "record", "name": "WrapM__", "fields": [{"name": "skipme", "type": raw}, {"name": "keep", "type": "int"}]}
+                R = {"type": "record", "name": "WrapM__", "fields": [{"name": "keep", "type": "int"}]}
+                info = {"schema": raw, "datum": f"<{nblocks} items, one per block, {form}>", "blocks": nblocks, "form": form}
+                n_cases += 1
+                res.evals += 2
+                try:
+                    got = fa.schemaless_reader(io.BytesIO(bytes(body)), raw)
+                    if got != expect:
+                        res.add(Violation("c03.valid-layout.read", "valid-layout-wrong-value:many-blocks", f"{kind} of {nblocks} one-item blocks ({form}) decoded to a different value", dict(info, mode="many-blocks")))
+                except Exception as e:
+                    res.add(Violation("c03.valid-layout.read", f"valid-layout-raised:{type(e).__name__}:many-blocks", f"{kind} of {nblocks} one-item blocks ({form}) raised {type(e).__name__}: {str(e)[:100]}", dict(info, mode="many-blocks")))
+                try:
+                    got = fa.schemaless_reader(io.BytesIO(bytes(body) + binary.zigzag(KEEP)), W, R)
+                    if got != {"keep": KEEP}:
+                        res.add(Violation("c03.valid-layout.skip", "valid-layout-skip-misaligned:many-blocks", f"after skipping a {kind} of {nblocks} one-item blocks ({form}) the next field read as {short(got)}", dict(info, mode="many-blocks")))
+                except Exception as e:
+                    res.add(Violation("c03.valid-layout.skip", f"valid-layout-skip-raised:{type(e).__name__}:many-blocks", f"skipping a {kind} of {nblocks} one-item blocks ({form}) raised {type(e).__name__}: {str(e)[:100]}", dict(info, mode="many-blocks")))
+    res.distinct = n_cases
+    res.sample({"many_blocks": "100 / 1000 / 3000 / 20000 one-item blocks; positive, sized, alternating; array and map; read and skipped"})
+    return res
+
+
 def run_unit(i, tier):
     import fastavro as fa
 
     res = UnitResult()
     if i == "huge":
         return run_huge(fa, res)
+    if i == "many-blocks":
+        return run_many_blocks(fa, res)
     raw = family.schemas(tier)[i]
     node, defs = names.resolve(raw)
     lim = 4 if tier == "quick" else 6
@@ -321,6 +362,8 @@ def replay(case):
     res = UnitResult()
     if case.get("mode") == "huge":
         return run_huge(fa, res).violations
+    if case.get("mode") == "many-blocks":
+        return run_many_blocks(fa, res).violations
     raw = case["schema"]
     node, defs = names.resolve(raw)
     W, R = _wrap(raw)
